@@ -160,10 +160,16 @@ _WIRE = {}
 def compose_once(case):
 	"""one composition per case for model and implementation lines (the Date field is the wall clock)"""
 	if case not in _WIRE:
-		if len(_WIRE) > 5000:
-			_WIRE.clear()
 		_WIRE[case] = compose(case)
 	return _WIRE[case]
+
+
+BATCH = 2000
+
+
+def prepare(batch):
+	"""called by vcheck before each batch: the cache only has to live for one batch"""
+	_WIRE.clear()
 
 
 def compose(case):
